@@ -24,12 +24,28 @@ func concTime(n int) time.Time {
 	return timeBase.Add(time.Duration(n) * time.Hour)
 }
 
+// strStyle 1: present strings carry leading/trailing whitespace (still non-blank): they are
+// present values of their full length (C04: only strings that are EMPTY after trimming are absent)
+var strStyle int
+
+func concStr(n int) string {
+	if strStyle == 1 {
+		switch {
+		case n >= 3:
+			return " " + strings.Repeat("x", n-2) + "\t"
+		case n == 2:
+			return " x"
+		}
+	}
+	return strings.Repeat("x", n)
+}
+
 func concNative(ty string, n int) any {
 	switch ty {
 	case "int":
 		return n
 	case "str":
-		return strings.Repeat("x", n)
+		return concStr(n)
 	case "bool":
 		return n == 1
 	case "float":
@@ -45,7 +61,7 @@ func concString(ty string, n int) string {
 	case "int":
 		return strconv.Itoa(n)
 	case "str":
-		return strings.Repeat("x", n)
+		return concStr(n)
 	case "bool":
 		return strconv.FormatBool(n == 1)
 	case "float":
@@ -78,7 +94,7 @@ func abstractVal(v any) int {
 			return x
 		}
 	case string:
-		if len(x) <= 9 && x == strings.Repeat("x", len(x)) {
+		if len(x) <= 9 && (x == strings.Repeat("x", len(x)) || x == concStr(len(x))) {
 			return len(x)
 		}
 	case bool:
@@ -198,6 +214,9 @@ func concInput(in *Input, n *Node, fe string) any {
 			return concString(ty, in.V)
 		case "f64":
 			return float64(in.V)
+		}
+		if fe == "json" && ty == "time" {
+			return concString(ty, in.V)
 		}
 		return concNative(ty, in.V)
 	case "list":
@@ -468,10 +487,10 @@ func (b *builder) build(n *Node, tmpl []string) z.ZogSchema {
 				s.Required()
 			}
 			if n.Def != None {
-				s.Default(strings.Repeat("x", n.Def))
+				s.Default(concStr(n.Def))
 			}
 			if n.Catch != None {
-				s.Catch(strings.Repeat("x", n.Catch))
+				s.Catch(concStr(n.Catch))
 			}
 			for i, t := range n.Tests {
 				o := testOpts(t)
